@@ -719,7 +719,8 @@ fn has_huge_si(items: &[Item]) -> bool {
 /// killed after 15 s: `Err("abort")` / `Err("timeout")` when it does not survive the file
 fn impl_file_child(items: &[Item], lay: Lay) -> Result<Cells, String> {
     use std::process::{Command, Stdio};
-    let exe = std::env::current_exe().expect("current_exe");
+    // `/proc/self/exe` keeps working when the binary file is replaced (re-linked by a concurrent cargo build)
+    let exe = if std::path::Path::new("/proc/self/exe").exists() { std::path::PathBuf::from("/proc/self/exe") } else { std::env::current_exe().expect("current_exe") };
     let mut child = Command::new(exe)
         .env("C15_PROBE_FILE", format!("{}:{}", lay.wire(), items_wire(items)))
         .stdin(Stdio::null())
